@@ -40,7 +40,7 @@ pub mod c12;
 pub mod c13;
 #[cfg(feature = "c14")]
 pub mod c14;
-#[cfg(feature = "c15")]
+#[cfg(any(feature = "c15", feature = "c04"))]
 pub mod c15;
 #[cfg(feature = "c17")]
 pub mod c17;
